@@ -39,15 +39,13 @@ FirstFalse(cs) == IF \E k \in 1..Len(cs) : ~cs[k] THEN CHOOSE k \in 1..Len(cs) :
 
 Good(r) ==
   CASE r.op = "cps" ->          \* strings of one code point r.lo + k - 1
-         \A law \in 1..4 :
-            Blk(r, "str/" \o Names[law],
-                {r.lo + k - 1 : k \in {k \in 1..r.n :
-                    ~StrChecks(U!Utf8(r.lo + k - 1), r.reprs[k], r.backs[k], r.strs[k])[law]}})
+         LET F == [k \in 1..r.n |-> FirstFalse(StrChecks(U!Utf8(r.lo + k - 1), r.reprs[k], r.backs[k], r.strs[k]))]
+             FailK == {k \in 1..r.n : F[k] # 0}
+         IN \A law \in 1..4 : Blk(r, "str/" \o Names[law], {r.lo + k - 1 : k \in {k \in FailK : F[k] = law}})
     [] r.op = "bb" ->           \* bytes <<hi, b>> or <<b>>
-         \A law \in {1, 3, 4} :
-            Blk(r, "bytes/" \o Names[law],
-                {k - 1 : k \in {k \in 1..256 :
-                    ~BytesChecks(IF r.hi < 0 THEN <<k - 1>> ELSE <<r.hi, k - 1>>, r.reprs[k], r.backs[k])[law]}})
+         LET F == [k \in 1..256 |-> FirstFalse(BytesChecks(IF r.hi < 0 THEN <<k - 1>> ELSE <<r.hi, k - 1>>, r.reprs[k], r.backs[k]))]
+             FailK == {k \in 1..256 : F[k] # 0}
+         IN \A law \in {1, 3, 4} : Blk(r, "bytes/" \o Names[law], {k - 1 : k \in {k \in FailK : F[k] = law}})
     [] r.op = "str" ->
          LET f == FirstFalse(StrChecks(r.v, r.repr, r.back, r.str)) IN f = 0 \/ Bad(r, "str/" \o Names[f], 0)
     [] r.op = "bytes" ->
